@@ -48,7 +48,7 @@ type client struct {
 func newClient(svc *broker.Service, idx int) *client {
 	a, b := net.Pipe()
 	c := &client{idx: idx, conn: a, pkts: make(chan mqtt.Message, 4096), closed: make(chan struct{}), open: true}
-	svc.VerifAttach(b)
+	_, c.guid = svc.VerifAttachConn(b)
 	go func() {
 		rd := bufio.NewReaderSize(a, 65536)
 		for {
@@ -335,9 +335,12 @@ func history(lic license.License, mqttMode bool, nClients, steps int, script []s
 	w.watcher.send(&mqtt.Publish{Header: mqtt.Header{QOS: 1}, MessageID: 7, Topic: []byte("emitter/presence/"), Payload: req})
 	w.watcher.waitFor(isType(mqtt.TypeOfPuback))
 
+	var initialSubs []uint64
 	for i := 0; i < nClients; i++ {
 		cl := newClient(svc, i)
 		w.clients = append(w.clients, cl)
+		w.guids[cl.guid] = i
+		initialSubs = append(initialSubs, uint64(hash.OfString(cl.guid)))
 	}
 	w.pending = make([][]mqtt.Message, nClients)
 
@@ -373,9 +376,10 @@ func history(lic license.License, mqttMode bool, nClients, steps int, script []s
 			if r.Intn(3) == 0 { // reconnect as a new connection in the same slot
 				cl = newClient(svc, ci)
 				w.clients[ci] = cl
+				w.guids[cl.guid] = ci
 				connected[ci] = false
 				heldBy[ci] = nil
-				step(ci, "OReopen", "reopen")
+				step(ci, vlib.App("OReopen", vlib.N(uint64(hash.OfString(cl.guid)))), "reopen")
 			}
 			continue
 		}
@@ -564,7 +568,7 @@ func history(lic license.License, mqttMode bool, nClients, steps int, script []s
 		cl.conn.Close()
 	}
 	return vlib.App("CBroker", vlib.Bool(mqttMode), vlib.N(uint64(lic.Contract())), vlib.N(uint64(lic.Signature())), vlib.Z(now),
-			vlib.List(keyTerms), vlib.N(uint64(nClients)), vlib.List(ops), vlib.List(dump), vlib.List(stored), vlib.N(uint64(hash.OfString(w.watcher.guid))), vlib.N(uint64(hash.OfString(w.helper.guid)))),
+			vlib.List(keyTerms), vlib.N(uint64(nClients)), vlib.NList(initialSubs), vlib.List(ops), vlib.List(dump), vlib.List(stored), vlib.N(uint64(hash.OfString(w.watcher.guid))), vlib.N(uint64(hash.OfString(w.helper.guid)))),
 		map[string]interface{}{"clients": nClients, "steps": len(ops), "kinds": kinds, "mqtt": mqttMode}
 }
 
